@@ -128,6 +128,10 @@ def cases(rng, tier):
         k = rng.randint(0, 12)
         lo = rng.randint(-5, 3)
         out.append({'kind': 'onehot', 'ys': [rng.randint(lo, lo + rng.randint(0, 6)) for _ in range(k)]})
+    # every run: signed label sets whose largest value equals (number of distinct labels - 1) — a dense-looking maximum over labels that are
+    # not 0..k-1 (binary targets -1 / +1 in particular), in several orders and with repeats
+    for ys in ([-1, 1], [1, -1, -1, 1], [-1, 0, 2], [2, -1, 0, 0, 2], [-3, -2, 1, 3], [3, 1, -2, -3, 1], [-2, 1], [-5, 0, 2, 3], [0, -1]):
+        out.append({'kind': 'onehot', 'ys': list(ys)})
     # label sets of every type: each family at least twice per run (quick), then random ones
     fams = list(LABEL_FAMILIES)
     for j in range(3 * len(fams) if tier == 'quick' else 60 * len(fams)):
